@@ -90,7 +90,7 @@ fn cfg_a(c: &Case) -> Cfg {
 }
 
 fn bcfg(c: &Case) -> BConfig {
-    BConfig { glr: c.glr, builder: 1, arrays: c.arrays, loc_info: false, fancy: false, custom_lexer: false }
+    BConfig { glr: c.glr, builder: 1, arrays: c.arrays, loc_info: false, fancy: false, custom_lexer: false, rn_table: false }
 }
 
 /// dump production index -> ProdKind discriminant
